@@ -4,6 +4,9 @@ import json, os, subprocess, sys
 ROOT = os.path.dirname(os.path.dirname(os.path.abspath(__file__)))
 
 CLAIMED = {
+ "C03": ("exploration", "model-based property testing (proptest): generated CKKS programs next to a complex-vector shadow with a worst-case error bound; bit-exact scale oracle; injected ill-typed steps must be refused",
+         "Generated-history search over CKKS programs (multiply, square, plaintext operations, relinearize, rescale, mod switch) on chains of 2..6 primes of mixed sizes with complex inputs of either sign. Every result's recorded scale is compared bit-for-bit with the single IEEE product or quotient the operation implies, its decoding with the shadow within an analysed worst-case bound (asserted only when scaled message plus error fits Q/2 with a 2^6 margin), and injected steps that mix levels, mismatched scales or overflowing scales must panic (the library's refusal convention) rather than return.",
+         "Trusted: error model DESIGN.md §4, shadow::ckks_tolerance; the bound is worst-case, so relative errors below about N^2 2^-scale-bits pass (stated limit).", "DESIGN.md §6 C03"),
  "C07": ("exploration", "property-based testing (proptest): differential check of invariant_noise_budget against an exact big-integer evaluation of the definition on program-generated ciphertexts",
          "Generated-input search: every fresh and every computed ciphertext of multiplication-heavy generated programs (budgets driven down to 0; 1..6 primes so every word count of the multi-precision norm/compose code runs; sizes up to 16; all levels) is measured twice - by the library and by an oracle that recomputes the phase from the secret key with naive per-prime convolutions, its own CRT and an exact centered infinity norm. Equality is exact, so any disagreement is a violation. Fresh budgets are compared with the deterministic lower bound, negate/add/sub/add_many with the stated relations, and decrypt with the exactly rounded phase outside a 2^-30 tie margin.",
          "Trusted: BigU, refmath; the secret key is brought to coefficient form with the library's inverse NTT (checked to be ternary; NTT correctness is C09).", "DESIGN.md §6 C07"),
